@@ -133,6 +133,33 @@ func loadProgram(repo string, verifDir string) (*program, error) {
 			fc.props = base.props
 		}
 	}
+	// "paramrule": a precondition shared by all functions of the package with parameters of the given names
+	for _, pr := range p.cons.paramRules {
+		for key, fc := range p.cons.funcs {
+			fn, ok := p.funcs[key]
+			if !ok || fc.pkg != pr.pkg || fc.noParamRules {
+				continue
+			}
+			have := map[string]bool{}
+			for _, prm := range fn.Params {
+				have[prm.Name()] = true
+			}
+			all := true
+			for _, n := range pr.params {
+				if !have[n] {
+					all = false
+				}
+			}
+			if all && pr.ensures {
+				// result rules speak of (r0 reflect.Value, r1 error)
+				if rs := fn.Signature.Results(); rs.Len() == 2 && rs.At(0).Type().String() == "reflect.Value" {
+					fc.ensures = append(fc.ensures, pr.cl)
+				}
+			} else if all {
+				fc.requires = append(fc.requires, pr.cl)
+			}
+		}
+	}
 	// every contract must name an existing function
 	for key := range p.cons.funcs {
 		if _, ok := p.funcs[key]; !ok && !strings.Contains(key, ".iface:") && !strings.Contains(key, ".functype:") && !strings.Contains(key, ".lemma:") {
